@@ -230,6 +230,7 @@ class Index(object):
             u.owner_cls = parent.owner_cls
         else:
             u.owner_cls = cls
+        u.idx = self
         self.units[u.qual] = u
         m.units.append(u)
         return u
